@@ -7,9 +7,8 @@
 name=$1; patch=$2; shift 2
 W=/tmp/mutchk_$name
 rm -rf $W; mkdir -p $W/verif
-git -C /repo worktree prune
-git -C /repo worktree add -q --detach $W/repo HEAD || exit 3
-if [ "$patch" != "-" ]; then (cd $W/repo && git apply "$patch") || { echo "PATCH DOES NOT APPLY"; git -C /repo worktree remove --force $W/repo; rm -rf $W; exit 3; }; fi
+( flock 9; git -C /repo worktree prune; git -C /repo worktree add -q --detach $W/repo HEAD ) 9>/tmp/.qf_worktree.lock || exit 3
+if [ "$patch" != "-" ]; then (cd $W/repo && git apply "$patch") || { echo "PATCH DOES NOT APPLY"; ( flock 9; git -C /repo worktree remove --force $W/repo ) 9>/tmp/.qf_worktree.lock; rm -rf $W; exit 3; }; fi
 git -C /verif archive HEAD | tar -x -C $W/verif
 # reuse build products: go cache, and .vo of committed-and-unmodified sources
 mkdir -p $W/verif/_build; cp -a /verif/_build/gocache $W/verif/_build/ 2>/dev/null
@@ -31,4 +30,4 @@ for p in "$@"; do
 done
 if [ -n "$KEEP" ]; then echo "kept $W"; else
 mkdir -p /verif/_build/mutreplays/$name; cp -r $W/verif/replays/. /verif/_build/mutreplays/$name/ 2>/dev/null
-git -C /repo worktree remove --force $W/repo; rm -rf $W; fi
+( flock 9; git -C /repo worktree remove --force $W/repo ) 9>/tmp/.qf_worktree.lock; rm -rf $W; fi
